@@ -266,6 +266,7 @@ func runBisyncSim(r *Run, prop string, cfg PipeCfg, st *Stream, maxCrashes int, 
 	resyncs := 0
 	failovers := 0
 	ooms := 0
+	restartSoon := false
 	allowFailover := os.Getenv("SIM_C14_NOFAILOVER") != "1"
 	for r.BeginStep() {
 		r.Settle()
@@ -298,6 +299,17 @@ func runBisyncSim(r *Run, prop string, cfg PipeCfg, st *Stream, maxCrashes int, 
 		}
 		if ph == 1 && ps.oomLeft > 0 {
 			ps.oomLeft = 0 // the start is over: memory is back before the replay begins
+		}
+		if ph == 1 && restartSoon {
+			// ... and the link is stopped and started again right away, with no traffic in between: whatever the start
+			// under memory pressure left behind is what this start finds
+			restartSoon = false
+			r.W.Fault("graceful_restart")
+			r.Logf("GRACEFUL restart of incarnation %d right after its start", ps.inc.id)
+			ps.shutdown()
+			o.observe()
+			ps.startIncarnation()
+			continue
 		}
 		ready := ps.srv.Ready()
 		allCommitted := true
@@ -350,6 +362,7 @@ func runBisyncSim(r *Run, prop string, cfg PipeCfg, st *Stream, maxCrashes int, 
 					ps.crash(r.Sched(), "scheduled, target out of memory at the next start")
 					o.observe()
 					ps.oomLeft = 1 + r.Sched().Choose("oom_requests", 3)
+					restartSoon = r.Sched().Choose("restart_right_after", 2) == 1
 					ps.startIncarnation()
 				}})
 			}
